@@ -73,14 +73,14 @@ FromGroup(g, recursive) == { pr \in Flat : IF recursive THEN Under(nodes[pr[1]].
 
 \* ---------- shape conversion (SVG 1.1 chapter 9): attributes are a function of the node index so that nodes differ
 AttrOf(kd, k) ==
-  CASE kd = "line"     -> [x1 |-> k, y1 |-> 2*k - 3, x2 |-> k + 4, y2 |-> 1 - k]
+  CASE kd = "line"     -> [x1 |-> k - 2, y1 |-> 2*k - 6, x2 |-> k + 4, y2 |-> 4 - k]          \* zeros at k = 2, 3, 4: an attribute that is 0 may be left out (default)
     [] kd = "polyline" -> [pts |-> << <<k, 2>>, <<k + 3, 2>>, <<k + 3, 6>>, <<k - 1, 7>> >>]
     [] kd = "polygon"  -> [pts |-> << <<1, k>>, <<5, k + 1>>, <<3, k + 4>> >>]
-    [] kd = "rect"     -> [x |-> k, y |-> 2*k - 3, w |-> 4 + k, h |-> 3]
+    [] kd = "rect"     -> [x |-> k - 3, y |-> 2*k - 4, w |-> 4 + k, h |-> 3]
     [] kd = "rrect"    -> [x |-> k, y |-> 2*k - 3, w |-> 6 + 2*k, h |-> 6,                \* 0 = attribute absent: the other one is used for both
                            rx |-> (IF k % 3 = 2 THEN 0 ELSE IF k % 6 = 3 THEN 9 + k ELSE 1),     \* k = 3, 9: more than half the width (clamped, SVG 1.1 9.2)
                            ry |-> (IF k % 3 = 1 THEN 0 ELSE IF k % 6 = 2 THEN 7 ELSE 2)]        \* k = 2, 8: more than half the height (and, rx being absent, of the width)
-    [] kd = "circle"   -> [cx |-> k, cy |-> 3 - k, r |-> 2 + k]
+    [] kd = "circle"   -> [cx |-> k - 2, cy |-> 3 - k, r |-> 2 + k]
     [] kd = "ellipse"  -> [cx |-> k, cy |-> 3 - k, rx |-> 2 + k, ry |-> 3]
     [] OTHER           -> [d |-> k % 2]
 Ln(p, q) == <<"L", p, q>>
